@@ -27,6 +27,7 @@ import (
 )
 
 type provRunner struct {
+	lastEvidence string
 	t        *Trace
 	w        *World
 	prev     map[string]map[string]string // consumer id -> field -> value
@@ -805,10 +806,15 @@ func (p *provRunner) snapshotGlobal(ctx sdk.Context) map[string]string {
 		if r.Tombstoned {
 			tb = 1
 		}
-		st = append(st, fmt.Sprintf("%d:%d:%d:%d:%d:%d:%d", r.ID, r.Tokens, r.Status, j, r.LastPower, tb, r.JailedUntil-t0.UnixNano()*b2i(r.JailedUntil != 0)))
+		ju := r.JailedUntil - t0.UnixNano()*b2i(r.JailedUntil != 0)
+		if r.JailedUntil == 9223372036854775807 {
+			ju = r.JailedUntil
+		}
+		st = append(st, fmt.Sprintf("%d:%d:%d:%d:%d:%d:%d", r.ID, r.Tokens, r.Status, j, r.LastPower, tb, ju))
 	}
 	m["stk"] = strings.Join(st, ",")
 	p.snapshotRewards(ctx, m)
+	p.snapshotUnbonding(ctx, m)
 	var tax string
 	if !p.w.env.get(ctx, "distr/tax", &tax) {
 		tax = "0.020000000000000000"
